@@ -16,6 +16,7 @@
 #endif
 #include <atomic>
 #include <vector>
+#include <algorithm>
 #include <cstring>
 #include <cstdio>
 #include <pthread.h>
@@ -183,6 +184,69 @@ static void pf_case(hk_rng_t * r) {
   g_pf_cases.fetch_add(1);
 }
 
+
+/* very large index ranges through the grain-size form (the only form whose leaf count stays small): the body only
+   records the sub-range it is handed; afterwards the sub-ranges must tile [first, first + n*step) exactly, in order,
+   without gaps, overlaps or indices outside the range */
+static std::atomic<long> g_huge_cases, g_huge_chunks;
+struct chunk_t { long a, b; };
+static chunk_t g_chunks[4096];
+static std::atomic<int> g_nchunks;
+static void pf_huge_case(hk_rng_t * r) {
+  static const long lens[] = { (1L << 30) - 1, 1L << 30, (1L << 30) + 1, 1500000000L, 2000000000L, 2147483647L, 3L << 28, 100000000L };
+  long len = lens[hk_below(r, sizeof(lens) / sizeof(lens[0]))];
+  long first;
+  switch (hk_below(r, 4)) {
+  case 0: first = 0; break;
+  case 1: first = 2147483647L - len; break;                       /* last == INT_MAX */
+  case 2: first = -(long)hk_below(r, 1000000000UL); if (first + len > 2147483647L) first = 2147483647L - len; break;
+  default: first = -1000000000L; if (first + len > 2147483647L) first = 2147483647L - len; break;
+  }
+  long last = first + len;
+  long step = hk_below(r, 4) == 0 ? 1 + (long)hk_below(r, 1000) : 1;
+  if (hk_below(r, 5) == 0) {
+    /* ranges within `step` of the largest length the index type allows, with iteration offsets that still fit */
+    static const long sp[][2] = { { 2147483646L, 3 }, { 2147483646L, 6 }, { 2147483645L, 5 }, { 2147483646L, 2 }, { 2147483643L, 3 } };
+    unsigned k = (unsigned)hk_below(r, 5);
+    len = sp[k][0]; step = sp[k][1];
+    first = hk_below(r, 2) ? 0 : 2147483647L - len;
+    last = first + len;
+  }
+  long n = (len + step - 1) / step;                               /* iterations */
+  /* the library addresses iteration k as first + k*step in the index type: keep n*step and first + n*step inside int
+     (a range whose iteration offsets do not fit the index type is outside what the interface can express) */
+  if (first + n * step > 2147483647L || n * step > 2147483647L) { step = 1; n = len; }
+  long grain = n / (long)hk_range(r, 3, 200) + 1;
+  g_nchunks = 0;
+  g_cur_first = first; g_cur_last = last; g_cur_step = step; g_cur_form = 2;
+  hk_crumb("parallel_for(huge range)");
+  mtbb::parallel_for((int)first, (int)last, (int)step, (int)grain, [](int a, int b) {
+    int k = g_nchunks.fetch_add(1);
+    if (k < 4096) { g_chunks[k].a = a; g_chunks[k].b = b; }
+  });
+  hk_crumb(0);
+  g_cur_form = -1;
+  int nc = g_nchunks.load();
+  HK_CHECK(nc > 0 && nc <= 4096, "parallel_for:chunk-count", "range [%ld,%ld) step %ld grain %ld: the body was called %d times", first, last, step, grain, nc);
+  std::sort(g_chunks, g_chunks + nc, [](const chunk_t & x, const chunk_t & y) { return x.a < y.a; });
+  long expect = first;
+  for (int k = 0; k < nc; k++) {
+    const char * what = g_chunks[k].a < expect ? "index-repeated" : g_chunks[k].a > expect ? "index-skipped" : 0;
+    if (g_chunks[k].a < first || g_chunks[k].b > first + n * step || g_chunks[k].b <= g_chunks[k].a) what = "index-outside-range";
+    if (what) {
+      char key[96];
+      snprintf(key, sizeof(key), "parallel_for:%s", what);
+      HK_FAIL(key, "grain-size form on [%ld,%ld) step %ld grain %ld (%ld iterations): chunk %d of %d is [%ld,%ld), expected a chunk starting at %ld inside [%ld,%ld)",
+              first, last, step, grain, n, k, nc, g_chunks[k].a, g_chunks[k].b, expect, first, first + n * step);
+      return;
+    }
+    HK_CHECK((g_chunks[k].b - g_chunks[k].a + step - 1) / step <= grain, "parallel_for:grain-exceeded", "chunk [%ld,%ld) has more than %ld iterations", g_chunks[k].a, g_chunks[k].b, grain);
+    expect = g_chunks[k].b;
+  }
+  HK_CHECK(expect == first + n * step, "parallel_for:index-skipped", "grain-size form on [%ld,%ld) step %ld: the chunks end at %ld, expected %ld", first, last, step, expect, first + n * step);
+  g_huge_cases.fetch_add(1); g_huge_chunks.fetch_add(nc);
+}
+
 int main(int argc, char ** argv) {
   hk_init(argc, argv);
   uint64_t seed = hk_seed();
@@ -193,12 +257,14 @@ int main(int argc, char ** argv) {
   { pthread_t wt; pthread_create(&wt, 0, runaway_watch, 0); }
   hk_rng_t r; hk_rng_seed(&r, seed, 130);
   (void)tls_depth_unused;
-  for (int i = 0; i < cases; i++) { if (hk_below(&r, 3) == 0) tg_case(&r, 0); else pf_case(&r); }
+  for (int i = 0; i < cases; i++) { unsigned w = (unsigned)hk_below(&r, 12); if (w < 4) tg_case(&r, 0); else if (w == 4) pf_huge_case(&r); else pf_case(&r); }
   hk_sample("%ld task_group cases (0-100 run() per wait, captures 1-400 bytes, nesting <= 3) and %ld parallel_for cases (4 forms, first in [-8,8], length in [-3,40], step 1-5, grain 1-7; %ld empty or reversed)",
             g_tg_cases.load(), g_pf_cases.load(), g_empty_cases.load());
   hk_report("task_group_cases", g_tg_cases.load());
   hk_report("tasks_run", g_tasks.load());
   hk_report("parallel_for_cases", g_pf_cases.load());
+  hk_report("parallel_for_huge_range_cases", g_huge_cases.load());
+  hk_report("parallel_for_huge_range_chunks", g_huge_chunks.load());
   hk_report("parallel_for_empty_or_reversed_cases", g_empty_cases.load());
   hk_report("body_invocations", g_bodies.load());
   hk_report("workers", myth_get_num_workers());
